@@ -29,10 +29,13 @@ const SX1276_RF_MID_BAND_THRESH: u32 = 525_000_000;
 
 // Frequency synthesizer step: FXOSC (32 MHz) / 524288 (2^19) = 61.03515625 Hz
 fn freq_to_pll_step(freq_in_hz: u32) -> u32 {
-    // Full-precision integer form of freq / 61.03515625. The previous
-    // truncate-then-shift shortcut zeroed the low 8 pll-step bits, putting
-    // fractional-MHz channels (868.1, 903.9, ...) up to ~15 kHz off.
-    (((freq_in_hz as u64) << 19) / 32_000_000) as u32
+    // Full-precision integer form of freq / 61.03515625, rounded to the
+    // nearest step like the reference driver does (truncating lands one step
+    // low whenever the fractional part is above one half, e.g. 867.7 MHz).
+    // The previous truncate-then-shift shortcut zeroed the low 8 pll-step
+    // bits, putting fractional-MHz channels (868.1, 903.9, ...) up to
+    // ~15 kHz off.
+    ((((freq_in_hz as u64) << 19) + 16_000_000) / 32_000_000) as u32
 }
 
 fn pll_step_to_freq(pll_step: u32) -> u32 {
